@@ -64,7 +64,7 @@ def _build(d):
         cols = [[_cell(d) for _ in range(nrows)] for _ in range(ncrit)]
         crits = [_crit(d, c) for c in cols]
         return {'k': 'COUNTIF' if k == 0 else 'COUNTIFS', 'cols': cols,
-                'crits': crits}
+                'crits': crits, 'orient': d.choice(['c', 'c', 'r'])}
     if k == 3:
         col = [_cell(d) for _ in range(nrows)]
         key = d.choice(col) if d.pick(4) else _cell(d)
@@ -217,10 +217,22 @@ def judge(case):
         parsed = [parse_criterion(c) for c in crits]
         want = sum(1 for r in range(n) if all(
             matches(cols[j][r], *parsed[j]) for j in range(len(cols))))
-        args = ','.join('%s,%s' % (_rng(j, n), lit(crits[j][1]))
+        if case.get('orient', 'c') == 'r':
+            # the same vectors laid out as rows
+            cells = {}
+            rngs = []
+            for j, col in enumerate(cols):
+                for i, v in enumerate(col):
+                    cells['Sheet1!%s%d' % (num_to_col(i + 1), j + 1)] = v
+                rngs.append('A%d:%s%d' % (j + 1, num_to_col(n), j + 1))
+            res.labels += ('row-ranges',)
+        else:
+            cells = _cells(cols)
+            rngs = [_rng(j, n) for j in range(len(cols))]
+        args = ','.join('%s,%s' % (rngs[j], lit(crits[j][1]))
                         for j in range(len(cols)))
         f = '=%s(%s)' % (k, args)
-        o = lib.eval_formula(f, _cells(cols), addr='Sheet1!Z1')[0]
+        o = lib.eval_formula(f, cells, addr='Sheet1!Z99')[0]
         res.nontrivial = 0 < want < n
         res.labels += tuple('op:' + p[0] for p in parsed[:1])
         if o != N(want):
